@@ -134,6 +134,11 @@ def value_problems(type_name, v):
     val, st, en, tx = v.get('value'), v.get('start'), v.get('end'), v.get('timex')
     if val == 'not resolved':
         return out
+    # the library's own placeholder for 'no valid date' must never leak into a value
+    for x in (val, st, en):
+        if isinstance(x, str) and x.startswith('0001-01-01'):
+            out.append('min-value-placeholder-emitted')
+            return out
     if ty in ('date', 'time', 'datetime'):
         f = {'date': vdate, 'time': vtime, 'datetime': vdt}[ty]
         present = [x for x in (val, st, en) if x is not None]
@@ -379,15 +384,30 @@ def run(pid, job, ctx):
     elif kind == 'invalid':
         m = dtlib.dt_model('en-us')
         r = ctx.rng('invalid')
-        bad = ['February 30, 2019', '2019-02-30', '31/04/2019', '4/31/2019', '24:30', '25:00', 'at 24:00', '2019-13-01', 'June 31', 'February 29, 2019', '2019-02-29',
-               'September 31st', '11/31', '2/30', '12:60', '23:59:60', 'from 2019-02-30 to 2019-03-05', 'between 4/31/2019 and 5/2/2019', '0/0/2019', '2019-00-10',
-               'February 29', '2/29/1900', '1900-02-29', '2100-02-29', '29 February 2100', 'april 31 2020 at 25:00']
-        for y in range(1900, 2100, 7):
-            bad += ['February 29, %d' % y, '%d-02-29' % y, '2/29/%d' % y, 'April 31, %d' % y]
+        # non-existent calendar dates (single dates only; these are also composed with times and ranges)
+        bad = ['February 30, 2019', '2019-02-30', '31/04/2019', '4/31/2019', 'June 31', 'February 29, 2019', '2019-02-29', 'September 31st', '11/31', '2/30',
+               'February 29', '2/29/1900', '1900-02-29', '2100-02-29', '29 February 2100', 'June 31, 2020', 'feb 30']
+        for y in range(1901, 2100, 7):
+            if not (y % 4 == 0 and (y % 100 != 0 or y % 400 == 0)):
+                bad += ['February 29, %d' % y, '%d-02-29' % y, '2/29/%d' % y, 'April 31, %d' % y]
+        # other invalid inputs, fed alone / in a neutral sentence only
+        alone = ['24:30', '25:00', 'at 24:00', '2019-13-01', '12:60', '23:59:60', 'from 2019-02-30 to 2019-03-05', 'between 4/31/2019 and 5/2/2019', '0/0/2019',
+                 '2019-00-10', 'april 31 2020 at 25:00', '2/29-3/1/2019', 'from feb 28 to feb 30']
+        composed = ['{}', 'see you on {} ok', '{} at 5pm', '{} at 17:20', '{} from 3pm to 5pm', '{} 3pm-5pm', '{} in the morning', 'from 3pm to 5pm on {}',
+                    'from {} to December 31, 2099', 'between {} and 2099-12-31', '{} at 8 in the evening', 'before {}', 'after {} 10am', 'since {}', '{} for 3 hours']
         for q in bad:
+            for car in composed:
+                m.parse(car.format(q), dtlib.rand_ref(r))
+        for q in alone:
             for car in ('{}', 'see you on {} ok'):
-                for _ in range(2):
-                    m.parse(car.format(q), dtlib.rand_ref(r))
+                m.parse(car.format(q), dtlib.rand_ref(r))
+        for cu, qs in (('zh-cn', ['2019年2月29日下午3点到5点', '2月30日晚上', '2019年2月30日', '2019年2月30日下午3点', '从2019年2月30日到3月5日']),
+                       ('es-es', ['30 de febrero de 2019', '30 de febrero de 2019 a las 5pm', '31/04/2019 de 3pm a 5pm']),
+                       ('fr-fr', ['30 février 2019', '30 février 2019 à 17h', '31/04/2019 de 15h à 17h']),
+                       ('de-de', ['30. Februar 2019', '30. Februar 2019 um 17 Uhr', '31.04.2019 von 15 bis 17 Uhr'])):
+            mm = dtlib.dt_model(cu)
+            for q in qs:
+                mm.parse(q, dtlib.rand_ref(r))
     elif kind == 'gen':
         mod = importlib.import_module('rtmon.checkers.' + job['checker'])
         sub = lib.Ctx(pid, 'quick', ctx.seed, job['sub'])
